@@ -359,6 +359,11 @@ class Analysis:
                 self._reginfo(name, t, chain, imm)
         return mode, name, vp
 
+    def _arg_pointee_info(self, n):
+        t = self.locals[n]["ty"]
+        imm = t.get("k") == "ref" and not t.get("mut") and not has_interior_mut(t.get("to", {}))
+        return (self._deref_ty(t), (), imm)
+
     @staticmethod
     def _deref_ty(t):
         to = t.get("to")
@@ -989,15 +994,36 @@ class Analysis:
             mode, name, val, addr = "val", None, self.var_term(cur, "v%d" % L), None
         vp = ""
         pure_deref = None
+        ov = None       # (type, chain, imm) tracked after a pointer was resolved to reference parameter n by its value
         for e in proj:
             k = e["k"]
             if pure_deref is not None:
                 pure_deref = None
+            if ov is not None and mode == "mem" and k != "deref":
+                t_, ch_, im_ = ov
+                if k == "field":
+                    ch_ = None if ch_ is None else ch_ + ((t_.get("path", "<%s>" % t_.get("k")), e["name"]),)
+                    t_ = e["ty"]
+                    nm_ = name + "." + e["name"]
+                elif k == "downcast":
+                    nm_ = name + "@" + e["variant"]
+                else:
+                    nm_ = norm_region(name + "#buf")
+                    t_ = t_.get("elem", {"k": "other", "s": "?"})
+                    ch_ = None
+                self._reginfo(nm_, t_, ch_, im_)
+                self.regions.add(nm_)
+                ov = (t_, ch_, im_)
+            elif ov is not None and k == "deref":
+                ov = None
             if mode == "val":
                 if k == "deref":
                     tg = self.pts.get(L, {})
                     if val[0] == "addr" and val[2] is None and val[1] in self.regions:
                         name = val[1]        # the pointer is exactly &R: more precise than points-to
+                    elif val[0] == "arg" and len(val) == 2 and ("A%d" % val[1]) in self.regions:
+                        name = "A%d" % val[1]        # the pointer is exactly reference parameter n (read back from a closure env)
+                        ov = self._arg_pointee_info(val[1])
                     elif vp == "" and len(tg) == 1:
                         name = next(iter(tg))
                     elif vp != "" and self.is_value_arg(L):
@@ -1027,7 +1053,11 @@ class Analysis:
                     ptr = self.load_region(name, addr, cur)
                     addr = ptr
                     pure_deref = ptr
-                    name = self.arg_alias.get(name, name + "*")
+                    if ptr[0] == "arg" and len(ptr) == 2 and ("A%d" % ptr[1]) in self.regions:
+                        name = "A%d" % ptr[1]        # the stored pointer is exactly reference parameter n
+                        ov = self._arg_pointee_info(ptr[1])
+                    else:
+                        name = self.arg_alias.get(name, name + "*")
                 elif k == "field":
                     name = name + "." + e["name"]
                     if addr is not None and self.collapsed(name):
@@ -1270,6 +1300,11 @@ class Analysis:
                              for a, o in zip(raw_args, t["args"]))
                 targs = tuple(x["s"] for x in fn.get("targs", []))
                 res = mk_call(key, args, targs, self, cur)
+            elif key == "alloc::vec::from_elem" and len(raw_args) == 2:
+                # vec![x; n] for a generic element type calls Clone (not pure), but the vector is n copies of x whatever
+                # clone does: keep the constructor term (its length and fill value are read off it)
+                targs = tuple(x["s"] for x in fn.get("targs", []))
+                res = ("call", key, targs, tuple(raw_args))
             else:
                 res = ("site", b, key)
         unwraps = None
@@ -1478,11 +1513,30 @@ def mk_call(key, args, targs, an, cur):
         return mk_field(("dc", args[0], "Ok"), "0", 0)
     if key == "core::convert::From::from" and len(args) == 1 and targs and len(targs) >= 2 and targs[0] == targs[1]:
         return args[0]
+    if key == "core::num::nonzero::NonZero::get" and len(args) == 1:
+        v = _nonzero_value(args[0])
+        if v is not None:
+            return v
     if key == "graaf::op::contiguous_order::ContiguousOrder::contiguous_order" and getattr(an.prog, "cord_equiv", False):
         key = "graaf::op::order::Order::order"
     if key in ("graaf::op::order::Order::order", "graaf::op::contiguous_order::ContiguousOrder::contiguous_order"):
         targs = ()
     return ("call", key, targs, args)
+
+
+def _nonzero_value(t):
+    """integer value of a NonZero term: NonZero::new(x).unwrap() is x, a.checked_mul(b).unwrap() is the checked product of
+    the values"""
+    if t[0] == "field" and t[2] == "0" and t[1][0] == "dc" and t[1][2] == "Some" and t[1][1][0] == "call":
+        c = t[1][1]
+        if c[1] == "core::num::nonzero::NonZero::new" and len(c[3]) == 1:
+            return c[3][0]
+        if c[1] in ("core::num::nonzero::NonZero::checked_mul", "core::num::nonzero::NonZero::checked_add") and len(c[3]) == 2:
+            a, b = _nonzero_value(c[3][0]), _nonzero_value(c[3][1]) if c[1].endswith("mul") else c[3][1]
+            if a is not None and b is not None:
+                op = "usize::checked_mul" if c[1].endswith("mul") else "usize::checked_add"
+                return ("field", ("dc", ("call", op, (), (a, b)), "Some"), "0")
+    return None
 
 
 def value_behind(at, an):
